@@ -165,7 +165,7 @@ class Check:
             bad.append('_CoqProject: forbidden flag')
         return bad
 
-    def prove(self, props=None, extra_files=()):
+    def prove(self, props=None, extra_files=(), gen=()):
         """Re-check the property file(s) with coqc (full .vo of the cone is
         kept up to date by build.sh; the property file itself is always
         recompiled). Returns list of failures (strings)."""
@@ -184,6 +184,15 @@ class Check:
             failures.append('build failed: ' + (r.stdout + r.stderr)[-1500:])
         obligations = discharged = 0
         axioms = []
+        # regenerated artefacts (translators): compiled here, under a lock, never part of the main build
+        if gen:
+            import fcntl
+            with open(os.path.join(VERIF, '.gen.lock'), 'w') as lk:
+                fcntl.flock(lk, fcntl.LOCK_EX)
+                for g in gen:
+                    r = subprocess.run(['timeout', '600', 'coqc', '-Q', '.', 'WS', g], cwd=COQ, capture_output=True, text=True)
+                    if r.returncode != 0:
+                        failures.append('%s (generated from /repo) does not check: %s' % (g, (r.stdout + r.stderr)[-1500:]))
         for pf in props:
             src = strip_coq_comments(open(os.path.join(COQ, pf)).read())
             thms = re.findall(r'^\s*(?:Theorem|Lemma|Corollary)\s+(\w+)', src, re.M)
